@@ -74,8 +74,8 @@ func TestDevOne(t *testing.T) {
 	fmt.Println("vet:", gobatch.Vet(p))
 	for i := range p.Decls {
 		q := p
-		q.Decls = p.Decls[:i+1]
-		q.Entry = "func(){}"
+		q.Decls = append(append([]string{}, p.Decls[:i+1]...), "func DevNoop() {}")
+		q.Entry = "DevNoop"
 		r := gobatch.RunInterp(q)
 		if r.Err != "" {
 			fmt.Printf("decl %d fails: %s\n%s\n", i, r.Err, p.Decls[i])
@@ -88,5 +88,26 @@ func TestDevOne(t *testing.T) {
 		w, err := gobatch.OracleOne(os.TempDir(), p)
 		fmt.Println("oracle:", err, "\n"+w.String())
 		fmt.Println(gobatch.Diff(r, w))
+	}
+}
+
+// TestDevProbes runs every replay under C09_DIR in the interpreter only.
+func TestDevProbes(t *testing.T) {
+	dir := os.Getenv("C09_DIR")
+	if dir == "" {
+		return
+	}
+	ents, _ := os.ReadDir(dir)
+	for _, e := range ents {
+		if len(e.Name()) < 3 || e.Name()[len(e.Name())-3:] != ".go" {
+			continue
+		}
+		data, _ := os.ReadFile(dir + "/" + e.Name())
+		p, ok := gobatch.ParseReplay(data)
+		if !ok {
+			continue
+		}
+		r := gobatch.RunInterp(p)
+		fmt.Printf("== %s vet=%v\n   %s\n", e.Name(), gobatch.Vet(p), regexp.MustCompile(`\n`).ReplaceAllString(r.String(), " | "))
 	}
 }
